@@ -228,5 +228,7 @@ class SelectEventLoop(EventLoop):
 
         self.logger.debug("Processing input")
         for record in ready:
-            record.data()
-            self._did_something = True
+            # a watch removed (or replaced) by an earlier callback of this batch is not called
+            if self._watch_files.get(record.fd) is record.data:
+                record.data()
+                self._did_something = True
